@@ -53,6 +53,17 @@ pub fn structured(n: usize, r: &mut StdRng) -> Vec<Vec<usize>> {
     let w: u64 = r.gen();
     out.push(on_from_fn(n, |m| (w >> (m & 63)) & 1 == 1));
     if d > 64 {
+        // tables whose blocks cancel under an arithmetic or bitwise 'checksum' although the table is not constant:
+        // the top bit in every block (x0 & .. & x5; the blocks add up to 0 modulo 2^64 for an even block count),
+        // blocks alternating between a word and its two's complement / its complement, a single word repeated
+        out.push(on_from_fn(n, |m| m & 63 == 63));
+        out.push(on_from_fn(n, |m| m & 63 == 62 + ((m >> 6) & 1)));
+        let w3: u64 = r.gen::<u64>() | 1;
+        let neg = w3.wrapping_neg();
+        out.push(on_from_fn(n, |m| ((if (m >> 6) & 1 == 0 { w3 } else { neg }) >> (m & 63)) & 1 == 1));
+        out.push(on_from_fn(n, |m| ((if (m >> 6) & 1 == 0 { w3 } else { !w3 }) >> (m & 63)) & 1 == 1));
+    }
+    if d > 64 {
         // equal in every word but one
         let k = r.gen_range(0..d / 64);
         let w2: u64 = r.gen();
